@@ -784,7 +784,19 @@ func c02SeqLockset(c *Ctx, a *attackAnchors) *seqFacts {
 			return sf
 		}
 	}
-	// composite literal does not initialise seq to non-zero: no store to seq outside hit was already checked.
+	// every result carries a sequence number: no path from hit's entry to a return avoids the critical section
+	{
+		var gate ssa.Instruction = sf.seqStore
+		if sf.site != nil {
+			gate = sf.site
+		}
+		set := explore(a.Hit.Blocks[0].Instrs[0], true, func(i ssa.Instruction) bool { return i == gate })
+		if rs := returnsIn(set); len(rs) > 0 {
+			c.Fail("seq-on-every-path:"+shortFn(a.Hit), "every path through hit assigns a sequence number before returning a result (a result returned without one duplicates sequence number 0 and leaves a gap)", "hit can return a result without having assigned its sequence number", c.at(rs[0]))
+			return sf
+		}
+		c.Pass("seq-on-every-path:"+shortFn(a.Hit), "every path through hit assigns a sequence number before returning a result (a result returned without one duplicates sequence number 0 and leaves a gap)", "the critical section is on every path to return", c.at(sf.seqStore))
+	}
 	sf.ok = true
 	c.Pass(key, rule, "all accesses under "+sf.mu, sites...)
 	return sf
